@@ -416,6 +416,64 @@ def r09_5(ctx):
     ctx.decide('R09.5', b.qual, 'sum over all coordinate axes', ok, b.node)
 
 
+# ------------------------------------------------------------------ R09.8
+def r09_8(ctx):
+    """Quadrature rules are values, not shared objects.  Some consumers scale the weights of the rule they obtained in place
+    (`qweights = q[1]; qweights *= weightfunc(...)`); that is only sound while every producer in pyiga.quadrature returns
+    freshly allocated arrays.  A producer that hands out stored arrays (a memo) turns those sites into writes to shared
+    state: every later request for the same rule integrates against the polluted weights."""
+    from sa import effects
+    Q = 'pyiga.quadrature'
+    summ = effects.build_summaries(ctx.prog, modules={Q})
+    producers = {f.name: f for f in ctx.prog.funcs_in(Q)}
+    ctx.floor('R09.8', 'quadrature producers', len(producers), 3)
+    fresh = {name for name in producers if summ.get(name) == 'fresh'}
+    sites = []
+    for modname in ('pyiga.assemble', 'pyiga.bspline', 'pyiga.approx', 'pyiga.assemble_tools', Q):
+        for fi in ctx.prog.funcs_in(modname, include_nested=True):
+            bound = {}      # local name -> producer it (partly) aliases
+            for s in own_nodes(fi.node):
+                if isinstance(s, ast.Assign) and len(s.targets) == 1:
+                    v = s.value
+                    src_names = [n for n in ast.walk(v) if isinstance(n, ast.Call) and (call_name(n) or '').split('.')[-1] in producers]
+                    tnames = [t.id for t in ast.walk(s.targets[0]) if isinstance(t, ast.Name)]
+                    if src_names and isinstance(v, (ast.Call, ast.Subscript)):
+                        for t in tnames:
+                            bound[t] = (call_name(src_names[0]) or '').split('.')[-1]
+                    elif isinstance(v, (ast.Subscript, ast.Name)):
+                        base = v
+                        while isinstance(base, ast.Subscript):
+                            base = base.value
+                        if isinstance(base, ast.Name) and base.id in bound:
+                            for t in tnames:
+                                bound[t] = bound[base.id]
+            for s in own_nodes(fi.node):
+                tgt = None
+                if isinstance(s, ast.AugAssign):
+                    tgt = s.target
+                elif isinstance(s, ast.Assign) and isinstance(s.targets[0], ast.Subscript):
+                    tgt = s.targets[0]
+                if tgt is None:
+                    continue
+                base = tgt
+                while isinstance(base, ast.Subscript):
+                    base = base.value
+                if isinstance(base, ast.Name) and base.id in bound:
+                    sites.append((fi, s, bound[base.id]))
+    for fi, s, prod in sites:
+        if prod in fresh:
+            ctx.met('R09.8', fi.qual, src(s)[:90], s, 'in-place update of a rule freshly allocated by %s' % prod)
+        else:
+            ctx.violated('R09.8', fi.qual, src(s)[:90], s,
+                         'updates in place (part of) the rule returned by quadrature.%s, which no longer returns freshly allocated arrays (it hands '
+                         'out stored objects): the modification persists and every later assembly that requests the same rule integrates against '
+                         'the modified weights' % prod)
+    ctx.floor('R09.8', 'in-place updates of obtained quadrature rules', len(sites), 1)
+    for name in sorted(producers):
+        ctx.decide('R09.8', Q + '.' + name, 'returns freshly allocated nodes and weights', (name in fresh) or None, producers[name].node,
+                   'no stored object escapes')
+
+
 # ------------------------------------------------------------------ R09.6
 def r09_6(ctx):
     f = ctx.prog.func(A + '._assemble_element_matrices')
@@ -445,6 +503,7 @@ def run(ctx):
     r09_4(ctx)
     r09_5(ctx)
     r09_6(ctx)
+    r09_8(ctx)
     # R09.7 = R17.6: inner_products / integrate weight by |det J| like the compiled mass form
     import rules.C17 as c17
     ctx.shared(c17.r17_6, 'R17.6', 'R09.7')
